@@ -1076,7 +1076,7 @@ def k2p_cases(tier, seed):
     names = sorted(T.TRANSFORMS)
     for fi, fid in enumerate(files):
         # no transformation: every way of giving the input, quiet or not, every mode
-        for via in ('file', 'long', 'stdin', 'dash'):
+        for via in (('file', 'long', 'stdin', 'dash') if (tier == 'thorough' or fid in ('K3', 'K4')) else ('file',)):
             for q in (None, '-q', '--quiet'):
                 for text, o in (('output', None), ('output', '-o'), ('output', '--output'), ('string', None)):
                     cs.append({'kind': 'k2p', 'file': fid, 'via': via, 'T': None, 'q': q, 'o': o,
@@ -1124,7 +1124,7 @@ def render_cases(tier, seed):
             for vn in (False, True):
                 for of in ofs:
                     for ext, oopt in outs:
-                        if tier != 'thorough' and b >= 2 and (ext in ('txt',) or q in ('--quiet', '--verbose')):
+                        if tier != 'thorough' and b >= 1 and (ext in ('txt',) or q in ('--quiet', '--verbose')):
                             continue
                         c = {'kind': 'render', 'tool': 'cnfgen', 'base': b, 'q': q, 'varnames': vn,
                              'of': of, 'out': ext, 'oopt': oopt, 'mode': 'output'}
@@ -1142,7 +1142,7 @@ def render_cases(tier, seed):
                    'out': None, 'odash': True, 'mode': 'output', 'seed': 12 if b != 4 else 2311})
     pofs = [[], ['-of', 'opb'], ['-of', 'latex'], ['--output-format', 'latex'], ['-l'], ['--latex']]
     for b in range(len(PB_RENDER_BASES)):
-        for q in qs:
+        for q in (qs if (tier == 'thorough' or b == 0) else [None, '-q', '-v']):
             for vn in (False, True):
                 for of in pofs:
                     for ext, oopt in ((None, None), ('opb', '-o'), ('txt', '--output')):
